@@ -279,6 +279,24 @@ func newRun(id, level string) *Run {
 			seed = v
 		}
 	}
+	// --replay <file>: re-run with the seed and tier recorded in the replay file (case lists are a pure
+	// function of (seed, tier), so the recorded case is generated and judged again)
+	if p := ReplayPath(); p != "" {
+		if b, err := os.ReadFile(p); err == nil {
+			var doc struct {
+				Seed *int64 `json:"seed"`
+				Tier string `json:"tier"`
+			}
+			if json.Unmarshal(b, &doc) == nil {
+				if doc.Seed != nil {
+					seed = *doc.Seed
+				}
+				if doc.Tier == "quick" || doc.Tier == "thorough" {
+					tier = doc.Tier
+				}
+			}
+		}
+	}
 	return &Run{
 		ID: id, Level: level, Tier: tier, Seed: seed, start: time.Now(),
 		distinct: map[uint64]struct{}{}, counters: map[string]int64{}, extra: map[string]any{},
